@@ -83,7 +83,7 @@ def oracle(ctx, sc, ans, trace):
     elif beh[0] == "throw":
         cls = beh[1]
         first = None
-        for c, hd in sc.ehandlers:
+        for c, hd in sc.merged_ehandlers():
             if py_isinst(cls, c) and mbit in hd:
                 first = (c, hd[mbit])
                 break
@@ -160,6 +160,12 @@ def run(ctx):
                 for cls in order:
                     reg = rng.choice([mbit, mbit, 4 if mbit != 4 else 2])
                     eh.append((cls, {reg: rng.choice(handlers)}))
+                # a class registered again for a further method keeps the
+                # position of its first registration
+                if eh and rng.random() < 0.4:
+                    again = rng.choice(eh)[0]
+                    eh.append((again, {rng.choice([1, 2, 4, 8]):
+                                       rng.choice(handlers)}))
                 sh = {}
                 if rng.random() < 0.3:
                     sh[(500, mbit)] = rng.choice(
@@ -195,6 +201,7 @@ def run(ctx):
                                ehandlers=sc.ehandlers, digest=sc.digest,
                                construct=sc.construct, method=sc.method,
                                leaf=sc.leaf, debug=sc.debug)
+            bare.shape, bare.host = sc.shape, sc.host
             ans2, _ = bare.run()
             ctx.case(("indep", repr(sc.describe())), True, None)
             if (ans.code, dc.canon_headers(ans.headers or []), ans.body) != \
